@@ -37,6 +37,15 @@ add("C18", "model_checking",
     "point evaluation, not by enumeration of reals.",
     "exhaustive enumeration of schedule versions x pieces x critical points against an exact reference; per-interval coefficient checks", "2/C18")
 
+add("C11", "model_checking",
+    "Exhaustive over all group-id assignments of arrays up to length 5 (6 thorough) on a sparse unsorted id alphabet x value columns "
+    "(distinct dyadic floats/ints that identify the member set, all boolean patterns, dates, full small alphabets for short arrays) x all "
+    "seven aggregation kinds on the real grouped_* functions; all pointer columns over {-1,-5,valid ids} x all store orders for sum_by_p_id "
+    "and join_numpy; every aggregation node (explicit spec, automatic sum, by-p_id) of all-nodes simulations re-derived from its parent "
+    "columns; precedence user > built-in > automatic and data > all through compute_taxes_and_transfers.",
+    "Trusted: mc/ref/aggregate.py (dict of member lists, math.fsum). Values outside the alphabets are not covered; count dtype is not constrained.",
+    "bounded exhaustive enumeration of group/pointer assignments against a reference model", "2/C11")
+
 NOT_APPLICABLE = []
 
 
